@@ -23,6 +23,10 @@ EXPLORE = [
     ("R", "LAU/LAU/U", 9), ("R", "LAU/LAU/LAU", 9), ("R", "LLAUU/TAU/U", 9),
 ]
 
+# Identifiable: client configurations searched when gen_matches_mixins breaks: (clients, depth)
+MEXPLORE = [("c10/c11", 12), ("c10,g0,d10/c11,g1", 16), ("c10,d10,c12/c11,d11", 18), ("c10,g0/g0,c11", 14),
+            ("c10/c11/c12", 12)]
+
 EXHAUSTIVE = [  # thorough: every schedule of the given length
     ("S", "LAU/LAU", 9), ("S", "LAU/TAU", 9), ("S", "LAU/TAU/LAU", 7), ("S", "LAU/U", 6),
     ("R", "LAU/LAU", 13), ("R", "LLAUU/TAU", 13), ("R", "LAU/UTAU", 13), ("R", "LTAUU/ULAU", 13),
@@ -159,6 +163,61 @@ def search_failing_schedule(ctx, model_gen, model_rev, impl):
     return True
 
 
+def identifiable_tsan(ctx):
+    """short free-running run of Identifiable under ThreadSanitizer (every tier): simultaneous
+    constructions + create/destroy/get_object stress; duplicate / unresolvable ids or any report fail"""
+    impl_t = pv.build_harness("tsan", "spin_drv", HARNESS_EXTRA)
+    seed = ctx.rng.randrange(1, 10 ** 6)
+    runs = []
+    for cmd in ("idrace 400 4", "idstress %d 4 20000" % seed):
+        rc, out = pv.sh("%s %s" % (impl_t, cmd), timeout=600, env=TSAN_ENV)
+        k = tsan_reports(out)
+        lines = [l for l in out.splitlines() if l.startswith(("idrace", "stress"))]
+        runs.append({"cmd": cmd, "rc": rc, "tsan_reports": k, "lines": lines})
+        if rc != 0 or k or "FAIL" in out:
+            first = out[out.find("WARNING: ThreadSanitizer"):][:1800] if k else ""
+            ctx.violation("tsan-identifiable",
+                          {"kind": "tsan-identifiable", "cmd": "%s %s" % (impl_t, cmd), "harness_args": cmd, "rc": rc,
+                           "tsan_reports": k, "lines": lines, "first_report": first,
+                           "witness": "identifiable :: %s" % cmd}, True,
+                          "Identifiable under concurrent construction/destruction (`spin_drv.tsan %s`): %s; %d ThreadSanitizer report(s)"
+                          % (cmd, "; ".join(lines) or "rc=%d" % rc, k))
+    ctx.cov["identifiable_tsan_runs"] = runs
+    return runs
+
+
+def search_mixins(ctx, model, tsan_runs):
+    """gen_matches_mixins no longer holds: search the fine-grained model of the REGENERATED bodies for an
+    interleaving of constructors/destructors/get_object that breaks the registry."""
+    found = []
+    for strict in ("0", "1"):
+        lines = ["mexplore %s %d %s" % (strict, d, cl) for (cl, d) in MEXPLORE]
+        rc, out = pv.run_lines(model, lines, timeout=600, args="gen")
+        for (cl, d), o in zip(MEXPLORE, out):
+            if o.startswith("found"):
+                _, sched, why = o.split()
+                found.append((cl, sched, why))
+        if found:
+            break
+    ctx.cov["gen_search_mixins"] = {"configurations": len(MEXPLORE), "failing_schedules_found": len(found),
+                                    "reasons": sorted({f[2] for f in found})}
+    if not found:
+        return False
+    cl, sched, why = sorted(found, key=lambda f: len(f[1]))[0]
+    observed = ["`spin_drv.tsan %s`: %s, %d ThreadSanitizer report(s)" % (r["cmd"], "; ".join(r["lines"]), r["tsan_reports"])
+                for r in tsan_runs if r["rc"] != 0 or r["tsan_reports"] or any("FAIL" in l for l in r["lines"])]
+    obj = {"kind": "gen-matches-mixins-broken",
+           "obligation": "gen_matches_mixins (coq/Spin/GenMatchesMixins.v): MixinsGen.gen_mixins = reviewed_mixins",
+           "clients": cl, "schedule": sched, "reason_in_model_of_changed_code": why,
+           "regenerated_bodies": open(os.path.join(pv.COQ, "Gen", "MixinsGen.v")).read()[-700:],
+           "observed_on_real_code": observed, "harness_args": "idrace 400 4",
+           "witness": "identifiable :: %s :: %s :: %s" % (cl, sched, why)}
+    ctx.violation("gen-mixins-" + why, obj, True,
+                  "identifiable.h/default_settable.h no longer match the reviewed bodies; threads `%s` under schedule `%s`: %s; on the real code: %s"
+                  % (cl, sched, why, "; ".join(observed) or "not reproduced by the free-running replay"))
+    return True
+
+
 def run(ctx):
     ctx.level = "proof"
     gen_error = None
@@ -167,6 +226,11 @@ def run(ctx):
         gen_spin.main()
     except Exception as e:   # translator cannot read the source any more
         gen_error = "%s: %s" % (type(e).__name__, e)
+    try:
+        import gen_mixins
+        gen_mixins.main()
+    except Exception as e:
+        gen_error = ((gen_error + "; ") if gen_error else "") + "gen_mixins %s: %s" % (type(e).__name__, e)
     try:
         res = ctx.prove(extra_targets=["Extract/ExtractSpin.vo"])
         model = pv.build_ocaml("spin")
@@ -182,6 +246,7 @@ def run(ctx):
         ctx.add_samples([c for c in cases if c.startswith("run R")][:3] + [c for c in cases if c.startswith("run S")][:2]
                         + [c for c in cases if c.startswith("reg")][:2])
         ctx.cov["exhaustive"] = False
+        tsan_runs = identifiable_tsan(ctx)
         if not ctx.quick():
             thorough_tsan(ctx, cases, model)
         if gen_error:
@@ -189,28 +254,32 @@ def run(ctx):
                           "translate/gen_spin.py cannot translate spinlock.h any more (%s): gen_matches cannot be established" % gen_error)
         elif not res["ok"]:
             failed = " ".join(res["failed"])
-            if "GenMatches" in failed or "gen_matches" in failed:
-                if not search_failing_schedule(ctx, model, model, impl):
-                    ctx.proof_broken({"obligation": "gen_matches (coq/Spin/GenMatches.v): SpinGen.prog = reviewed_prog",
-                                      "regenerated_program": open(os.path.join(pv.COQ, "Gen", "SpinGen.v")).read()[-1500:]})
-            else:
+            spin_broken = "Spin/GenMatches.v" in failed
+            mix_broken = "GenMatchesMixins" in failed
+            if spin_broken and not search_failing_schedule(ctx, model, model, impl):
+                ctx.proof_broken({"obligation": "gen_matches (coq/Spin/GenMatches.v): SpinGen.prog = reviewed_prog",
+                                  "regenerated_program": open(os.path.join(pv.COQ, "Gen", "SpinGen.v")).read()[-1500:]})
+            if mix_broken and not search_mixins(ctx, model, tsan_runs):
+                ctx.proof_broken({"obligation": "gen_matches_mixins (coq/Spin/GenMatchesMixins.v): MixinsGen.gen_mixins = reviewed_mixins",
+                                  "regenerated_bodies": open(os.path.join(pv.COQ, "Gen", "MixinsGen.v")).read()[-700:]})
+            if not spin_broken and not mix_broken:
                 ctx.proof_broken()
     finally:
         if pv.REPO != "/repo":   # a scratch run must not leave its SpinGen.v behind
             os.environ["PV_REPO"] = "/repo"
-            try:
-                import gen_spin
-                gen_spin.main()
-            except Exception:
-                pass
+            for mod in ("gen_spin", "gen_mixins"):
+                try:
+                    __import__(mod).main()
+                except Exception:
+                    pass
             os.environ["PV_REPO"] = pv.REPO
     ctx.assumptions += [
         "memory-model abstraction: sequentially consistent interleaving of single shared-memory accesses + a scalar-clock happens-before monitor in which only test_and_set(acquire)/clear(release) on ready_ synchronise (RaceSem.v); every pair of non-atomic accesses to one location counts as conflicting",
         "the relaxed accesses of the atomic owner id are modelled as reads of the latest value; sound for the branch outcome because only thread t ever stores t's id, it does so while it has won the flag, and it stores the empty id before clearing (theorem C19_owner_id_sound; coherence forbids reading one's own overwritten store)",
         "Spinlock theorems assume well-bracketed clients (unlock() only by the holder); RecursiveSpinlock theorems hold for arbitrary clients and assume fewer than 2^32 nested acquisitions (sane)",
         "a client touches the protected data only while it holds the lock (built into the client model and the harness)",
-        "Identifiable: constructor/destructor/get_object are atomic because each runs entirely under the class-wide std::mutex (std::mutex itself is trusted); fewer than 2^64-1 objects per type; DefaultSettable is NOT synchronised by the library: set_default/get_default/destruction of the default object are assumed confined to one thread at a time",
-        "the translator translate/gen_spin.py (clang AST -> Lang.v) is trusted; it is exercised by the correspondence run of the same property",
+        "Identifiable: atomicity of constructor/destructor/get_object is PROVED for the bodies read from identifiable.h (every access to next_id_/objects_ under the lock_guard, theorems C19_identifiable_*), assuming std::mutex/std::lock_guard give mutual exclusion and sequentially consistent critical sections; fewer than 2^64-1 objects per type; std::unordered_map is modelled as a finite map; DefaultSettable is NOT synchronised by the library: set_default/get_default/destruction of the default object are assumed confined to one thread at a time",
+        "the translators translate/gen_spin.py and translate/gen_mixins.py (clang AST -> Lang.v / MixLang.v) are trusted; they are exercised by the correspondence and ThreadSanitizer runs of the same property",
     ]
 
 
@@ -253,6 +322,12 @@ def thorough_tsan(ctx, cases, model):
 def replay(ctx, obj):
     import json
     print(json.dumps({k: v for k, v in obj.items() if k != "build_log_tail"}, indent=1)[:4000])
+    if obj.get("harness_args"):   # Identifiable: free-running replay under ThreadSanitizer
+        impl_t = pv.build_harness("tsan", "spin_drv", HARNESS_EXTRA)
+        rc, out = pv.sh("%s %s" % (impl_t, obj["harness_args"]), timeout=600, env=TSAN_ENV)
+        print("\n".join(l for l in out.splitlines() if l.startswith(("idrace", "stress"))))
+        print("ThreadSanitizer reports: %d, rc=%d" % (tsan_reports(out), rc))
+        return 1 if (rc != 0 or tsan_reports(out) or "FAIL" in out) else 0
     case = obj.get("case")
     if not case:
         return 0
